@@ -1,4 +1,5 @@
 import Percival.Proofs.CpuPaths
+import Percival.Proofs.CpuAesni
 /-!
 # C03 — every CPU-accelerated code path computes the same function as the portable one
 
@@ -9,9 +10,14 @@ call takes** (every address, every length, every partition, every per-call selec
 message schedule of `SHA256_Transform_sse2` is the FIPS 180-4 schedule, hence SHA-256 computed
 through the SSE2 transform is `Spec.Sha256.hash`.
 
-*What is assumed:* the instruction semantics of `Model.CpuPaths` (transcribed from the Intel SDM).
-SHA-NI and AES-NI instructions are not modelled: those paths are tied by the correspondence run of
-`tools/props/c03.py` only (see notes/C03.md).
+the SHA-NI transform (`SHA256RNDS2/MSG1/MSG2`) is the FIPS 180-4 compression function; AES-NI key
+expansion (`AESKEYGENASSIST`, both key sizes) and block encryption (`AESENC/AESENCLAST`) are FIPS-197
+KeyExpansion and Cipher.
+
+*What is assumed:* the instruction semantics of `Model.CpuPaths` / `Model.CpuAesni` (transcribed
+from the Intel SDM; each instruction is additionally run against the CPU on random operands by the
+`insn` op of the correspondence check).  Not modelled: `cpuid` detection and the self-tests, the
+AES-CTR bulk loop of `crypto_aesctr_aesni.c` (C02's routing theorem; here tied by the run only).
 -/
 namespace Percival.C03
 open Percival Percival.Spec Percival.Model.CpuPaths Percival.Proofs.CpuPaths
@@ -264,5 +270,83 @@ theorem sha_any_accel_path_eq_spec (H : Sha256.Regs) (calls : List (ShaPath × B
 example : absorbAccel Sha256.H0 [(.shani, List.replicate 64 0x61), (.sse2, List.replicate 64 0x62)] =
     some ([List.replicate 64 0x61, List.replicate 64 0x62].foldl Sha256.compress Sha256.H0) :=
   sha_any_accel_path_eq_spec _ _ (by decide)
+
+/-! ## P2/P3: AES-NI (`crypto_aes_aesni.c`)
+
+`Model.CpuAesni.Fips` is a self-contained transcription of FIPS-197 (C02 owns `Spec.Aes`; the two
+are to be identified when merged); FIPS-197 Appendix C.1 / C.3 are proved about it (and about the
+AES-NI model) by kernel evaluation in `KAT/CpuAesni.lean`. -/
+
+section aesni
+open Percival.Model.CpuAesni Percival.Proofs.CpuAesni
+
+/-- every immediate and index of `crypto_aes_aesni.c` the model relies on: `MKRKEY128/256` (which
+    round keys feed `_s` and `_t`, byte shifts 4 and 8, shuffle `0xff`), the ten AES-128 rcon
+    immediates, the thirteen AES-256 (shuffle, rcon) pairs, the round-key indices of the encrypt
+    function with its `if (nr > 10)`, `len == 16 → nr = 10`, `len == 32 → nr = 14`, the key loads -/
+theorem gen_aesni_constants :
+    Gen.CpuPaths.aesniMkrkey128 = [1, 1, 4, 8] ∧ Gen.CpuPaths.aesniShuffle128 = 0xff ∧
+    Gen.CpuPaths.aesniMkrkey256 = [2, 1, 4, 8] ∧
+    Gen.CpuPaths.aesniRcon128 = [0x01, 0x02, 0x04, 0x08, 0x10, 0x20, 0x40, 0x80, 0x1b, 0x36] ∧
+    Gen.CpuPaths.aesniShufRcon256 = [(0xff, 0x01), (0xaa, 0x00), (0xff, 0x02), (0xaa, 0x00), (0xff, 0x04),
+      (0xaa, 0x00), (0xff, 0x08), (0xaa, 0x00), (0xff, 0x10), (0xaa, 0x00), (0xff, 0x20), (0xaa, 0x00),
+      (0xff, 0x40)] ∧
+    Gen.CpuPaths.aesniEncXor = 0 ∧ Gen.CpuPaths.aesniEncFirst = [1, 2, 3, 4, 5, 6, 7, 8, 9] ∧
+    Gen.CpuPaths.aesniNrSplit = 10 ∧ Gen.CpuPaths.aesniEncSecond = [10, 11, 12, 13] ∧
+    Gen.CpuPaths.aesniKeyLen128 = 16 ∧ Gen.CpuPaths.aesniNr128 = 10 ∧
+    Gen.CpuPaths.aesniKeyLen256 = 32 ∧ Gen.CpuPaths.aesniNr256 = 14 ∧
+    Gen.CpuPaths.aesniLoadsRecognised = true := gen_aesni
+
+/-- the immediates are FIPS-197's: `Rcon[1..10]` for AES-128; for AES-256 round key `m` uses
+    `RotWord`+`Rcon[m/2]` (shuffle `0xff`) when `m` is even and `SubWord` only (shuffle `0xaa`) when odd -/
+theorem gen_aesni_rcon_is_fips :
+    RconFrom 1 Gen.CpuPaths.aesniRcon128 ∧ Sched256 2 Gen.CpuPaths.aesniShufRcon256 := by
+  constructor
+  · rw [gen_aesni.2.2.2.1]; simp only [RconFrom]; decide
+  · rw [gen_aesni.2.2.2.2.1]; simp only [Sched256]; decide
+
+/-- `AESENC` (SDM: ShiftRows, SubBytes, MixColumns, xor round key) is one FIPS-197 round
+    (SubBytes, ShiftRows, MixColumns, AddRoundKey); `AESENCLAST` is the final round -/
+theorem aesenc_is_fips_round (s k : R) :
+    aesenc s k = Fips.addRoundKey (Fips.mixColumns (Fips.shiftRows (Fips.subBytes s))) k ∧
+    aesenclast s k = Fips.addRoundKey (Fips.shiftRows (Fips.subBytes s)) k :=
+  ⟨aesenc_eq s k, aesenclast_eq s k⟩
+
+/-- **`crypto_aes_encrypt_block_aesni_m128i` is the FIPS-197 Cipher** over the same round keys,
+    for `nr = 10` (11 round keys) and `nr = 14` (15 round keys) -/
+theorem aesenc_rounds_eq_fips_cipher (rks : List R) (inp : R) :
+    (rks.length = 11 → encryptBlock rks 10 inp = Fips.cipher rks inp) ∧
+    (rks.length = 15 → encryptBlock rks 14 inp = Fips.cipher rks inp) :=
+  ⟨fun h => encryptBlock_11 rks h inp, fun h => encryptBlock_15 rks h inp⟩
+
+/-- too few round keys for `nr`: the model reports the out-of-bounds read -/
+example : encryptBlock [⟨W4.zero, W4.zero, W4.zero, W4.zero⟩] 10 ⟨W4.zero, W4.zero, W4.zero, W4.zero⟩ = none := by
+  decide
+
+/-- **`crypto_aes_key_expand_128_aesni` is FIPS-197 KeyExpansion (Nk = 4)**: the eleven round
+    keys made by `MKRKEY128` (`PSLLDQ`/`PXOR` prefix-xor + `AESKEYGENASSIST` + `PSHUFD 0xff`) are
+    `w[0..43]` -/
+theorem mkrkey128_eq_keyexpansion (k : R) :
+    expand128 k = some (Fips.roundKeys (Fips.keyExpansion k.words)) := expand128_eq k
+
+/-- **`crypto_aes_key_expand_256_aesni` is FIPS-197 KeyExpansion (Nk = 8)**: fifteen round keys,
+    `w[0..59]`, alternating `0xff`/`0xaa` shuffles -/
+theorem mkrkey256_eq_keyexpansion (k0 k1 : R) :
+    expand256 k0 k1 = some (Fips.roundKeys (Fips.keyExpansion (k0.words ++ k1.words))) := expand256_eq k0 k1
+
+/-- **Key expansion + block encryption through AES-NI = FIPS-197 AES**, for every 16- or 32-byte
+    key and every block (`crypto_aes_key_expand_aesni` + `crypto_aes_encrypt_block_aesni`) -/
+theorem aesni_encrypt_eq_fips (key : List UInt8) (inp : R) (h : key.length = 16 ∨ key.length = 32) :
+    aesniEncrypt key inp = Fips.encrypt (Fips.keyWords key) inp := aesniEncrypt_eq key inp h
+
+/-- any other key length: `crypto_aes_key_expand_aesni` fails (`warn0`, `NULL`) -/
+theorem aesni_rejects_other_key_lengths (key : List UInt8) (inp : R) (h : key.length ≠ 16 ∧ key.length ≠ 32) :
+    aesniEncrypt key inp = none := by
+  unfold aesniEncrypt
+  rw [keyLen128_eq, keyLen256_eq, if_neg h.1, if_neg h.2]
+
+example : aesniEncrypt [1, 2, 3] ⟨W4.zero, W4.zero, W4.zero, W4.zero⟩ = none := by decide
+
+end aesni
 
 end Percival.C03
